@@ -118,8 +118,8 @@ Section HistoryInv.
   Lemma fst_let {A B C} (x : A * B) (f : B -> C) : fst (let '(a, b) := x in (a, f b)) = fst x.
   Proof. destruct x. reflexivity. Qed.
 
-  Lemma project_in_txn_same proj after c g r c' g' r' :
-    project_in_txn projectf proj after (c, g, r) = (c', g', r') -> c' = c /\ g' = g.
+  Lemma project_in_txn_same proj after cp c g r c' g' r' :
+    project_in_txn projectf proj after cp (c, g, r) = (c', g', r') -> (c' = c \/ c' = cp) /\ g' = g.
   Proof.
     unfold project_in_txn. destruct r as [tr|e].
     - destruct (reply_doc projectf proj (pick_doc tr after)); intro H; inversion H; auto.
@@ -127,11 +127,14 @@ Section HistoryInv.
   Qed.
 
   Lemma fn_ok_project proj after (fn : catalog -> gen -> catalog * gen * (tresult + ekind)) g :
-    fn_ok fn g -> fn_ok (fun cat g0 => project_in_txn projectf proj after (fn cat g0)) g.
+    fn_ok fn g -> fn_ok (fun cat g0 => project_in_txn projectf proj after cat (fn cat g0)) g.
   Proof.
     intros F c c' g' r Hc. cbv beta.
     destruct (fn c g) as [[c1 g1] r1] eqn:E. intro H.
-    apply project_in_txn_same in H. destruct H as [-> ->]. eapply F; eauto.
+    apply project_in_txn_same in H. destruct H as [[->| ->] ->].
+    - eapply F; eauto.
+    - destruct (F _ _ _ _ Hc E) as [_ L]. split; [|exact L].
+      eapply cat_inv_mono; [exact Hc|exact L].
   Qed.
 
   (* callbacks that do not touch the generator *)
